@@ -258,6 +258,7 @@ type bscTx struct {
 	height   uint64
 	proof    []byte
 	dontCare bool
+	claimed  []byte // hash the message claims is stored (nil: the packet's own)
 }
 
 // BSCScenario: Parlia light-client world (C09) with real MPT storage proofs (C08).
@@ -845,11 +846,20 @@ func (w *bscWorld) opRecv(op kernel.Op) {
 	proof, dontCare := mutateProof(r, mut, sn.prove(w.contract, slot), sn, older, w.contract, slot, w.other)
 	var msg sdk.Msg = &packettypes.MsgRecvPacket{Packet: pk.bytes, ProofCommitment: proof, ProofHeight: clienttypes.NewHeight(0, h), Signer: w.relayer.Acc.String()}
 	what := "recv"
+	var claimed []byte
 	if pk.ack != nil {
-		msg = &packettypes.MsgAcknowledgement{Packet: pk.bytes, Acknowledgement: pk.ack, ProofAcked: proof, ProofHeight: clienttypes.NewHeight(0, h), Signer: w.relayer.Acc.String()}
+		ackBz := pk.ack
+		if mut == "spliced_key" || mut != "none" && r.Intn(3) == 0 {
+			// replay of another packet's acknowledgement: its bytes and its proof, relabelled for this packet
+			if a, pr, ok := spliceAck(pk, w.packets, sn, w.contract); ok {
+				ackBz, proof, claimed, mut, dontCare = a, pr, sha(a), "spliced_key", false
+				w.rec.Probe("ack.spliced_replay")
+			}
+		}
+		msg = &packettypes.MsgAcknowledgement{Packet: pk.bytes, Acknowledgement: ackBz, ProofAcked: proof, ProofHeight: clienttypes.NewHeight(0, h), Signer: w.relayer.Acc.String()}
 		what = "ack"
 	}
-	w.pending = append(w.pending, &bscTx{kind: "recv", msg: msg, pkt: pk, height: h, proof: proof, mut: mut, dontCare: dontCare,
+	w.pending = append(w.pending, &bscTx{kind: "recv", msg: msg, pkt: pk, height: h, proof: proof, mut: mut, dontCare: dontCare, claimed: claimed,
 		desc: fmt.Sprintf("%s seq=%d at h=%d (head %d, delay %d) mut=%s", what, pk.seq, h, head, delay, mut)})
 	if mut != "none" {
 		w.rec.Fault("net.corrupt.proof." + mut)
@@ -964,7 +974,11 @@ func (w *bscWorld) afterRecv(tx *bscTx, ok bool, log string, pre, post map[strin
 	delay := uint64(len(w.m.vals)/2 + 1)
 	root, have := w.m.roots[tx.height]
 	heightOK := tx.height <= head && head-tx.height >= delay && have
-	proofOK := have && verifyEthProof(root, w.contract, slotFor(tx.pkt.path), tx.pkt.hash, tx.proof)
+	claimed := tx.pkt.hash
+	if tx.claimed != nil {
+		claimed = tx.claimed
+	}
+	proofOK := have && verifyEthProof(root, w.contract, slotFor(tx.pkt.path), claimed, tx.proof)
 	want := heightOK && proofOK
 	w.rec.Logf("tx recv ok=%v want=%v (heightOK=%v proofOK=%v) %s", ok, want, heightOK, proofOK, tx.desc)
 	if ok {
